@@ -1422,7 +1422,8 @@ SPEC_ITEM_RE = _re_mod.compile(r"(\d+)!([nace])")
            "regenerated table); dynamic: an independent audit of every country and bank entry (exhaustive), and "
            "reachability - an IBAN is built around every distinct (country, bank code) key (quick: a sample; "
            "thorough: all) and .bank/.bic are read back; non-trivial = distinct key",
-      note="reachability is checked dynamically, not proved generically; 'algorithms read only defined fields' is "
+      note="reachability is proved (reachable / bank_reachable / live_rows_reachable) and additionally exercised on "
+           "the real code; 'algorithms read only defined fields' is "
            "read as in DESIGN.md (an undeclared field reads the empty string)")
 def c17(run):
     from realops import registry_lines
@@ -2206,6 +2207,25 @@ def c14(run):
                  ["iban.new", hx(bad_be), "F", "T"]],
                 [["bic.from_bank_code", hx("DE"), hx("43060967")], ["bban.bank", hx("DE"), hx("370400440532013000")]],
                 [["iban.new", hx("DE65100307000100000111"), "F", "T"], ["bic.candidates", hx("DE"), hx("10030700")]]]
+        # a module-level container is written by library calls: one call that is repeated, against a flood
+        # of distinct calls on the same algorithm object (bounded caches evict; an eviction between a
+        # membership test and the read is a lost entry)
+        if "moduleStateWrites" in dirty:
+            for m in (directed + base)[:3]:
+                acct = "".join(r.choice(DIGITS) for _ in range(10))
+                one = ";".join(["algo.validate", hx("DE:" + m), "-", hx(acct)])
+                ops = [["seq", one + "|" + one], ["algo.validate_many", hx("DE:" + m), "6000", str(run.seed)]]
+                n, found = sched.search_flood(ops, budget_s=run.scale(40, 600))
+                total += n
+                run.count(n, key=("flood", m), tag="flood schedules")
+                if found:
+                    sch, got, want = found
+                    run.violation("a repeated call against a flood of other calls on the same object",
+                                  [readable_op(["algo.validate", hx("DE:" + m), "-", hx(acct)]) + " x2",
+                                   "6000 validations of distinct accounts, method " + m], got, want,
+                                  "line-level schedule search on the real code", kind="schedule", ops=ops,
+                                  schedule=sch, expected_alone=want)
+                    break
         for ops in cold:
             n, found = sched.search_cold(ops, limit=run.scale(32, 400))
             total += n
@@ -2260,8 +2280,9 @@ def recorded_random(cc, seed, use_registry, pinned):
            "components read back, listed-bank membership, equal results for equal seeds, also in fresh "
            "interpreters under other PYTHONHASHSEEDs and after other calls; the no-country form; non-trivial = "
            "distinct (country, seed, mode, pinned)",
-      note="validity/error/determinism theorems proved on the choice-record model; random.Random, rstr.xeger and "
-           "the recording wrapper are trusted; pinned read-back and listed-bank membership are dynamic checks")
+      note="validity/error/determinism, pinned read-back and listed-bank membership proved on the choice-record "
+           "model; random.Random, rstr.xeger and the recording wrapper are trusted; cross-process reproducibility "
+           "is a dynamic check")
 def c13(run):
     import subprocess
     import sys as _sys
